@@ -257,7 +257,8 @@ impl Property for C14 {
                 } else {
                     j.probe("shutdown-with-probing-service");
                 }
-                let gb = tr.tx.iter().filter(|x| x.d == d && x.if_index == Some(ifx) && x.v4 == v4 && x.msg.as_ref().map(|mm| mm.is_response() && mm.answers.iter().any(|r| r.ttl == 0 && r.ty == wire::T_SRV && r.name.eq_ci(&s.fullname))).unwrap_or(false)).count();
+                // (goodbyes of an earlier unregister of the same name, and their repeats, are not the shutdown's)
+                let gb = tr.tx.iter().filter(|x| x.t >= exit_t && x.d == d && x.if_index == Some(ifx) && x.v4 == v4 && x.msg.as_ref().map(|mm| mm.is_response() && mm.answers.iter().any(|r| r.ttl == 0 && r.ty == wire::T_SRV && r.name.eq_ci(&s.fullname))).unwrap_or(false)).count();
                 j.judgements += 1;
                 if announced && gb != 1 {
                     j.fail("C14-R3", format!("shutdown at t={}: {} goodbyes for announced service {} on if{} {} (expected exactly one)", exit_t, gb, s.fullname.escaped(), ifx, if v4 { "v4" } else { "v6" }));
